@@ -266,9 +266,25 @@ impl EquivMode {
     }
 }
 
+/// `region_ok` with a witness of the parent region: in the exact regime a point that is strictly inside
+/// the parent region (and the box) and strictly satisfies the rows added since is a proof that the child
+/// region is full-dimensional inside the box, so no LP is needed; the answer is the same as `region_ok`'s.
+fn region_ok_w(rows: &[Row], from: usize, n: usize, mode: &EquivMode, wit: Option<&QVec>) -> Option<QVec> {
+    if mode.ball.is_none() {
+        if let Some(w) = wit {
+            if rows[from..].iter().all(|r| crate::exact::qdot(&r.a, w) < r.b) {
+                return Some(w.clone());
+            }
+        }
+    }
+    region_ok(rows, n, mode)
+}
+
 fn region_ok(rows: &[Row], n: usize, mode: &EquivMode) -> Option<QVec> {
     match &mode.ball {
-        None => lp::full_dim(rows, n),
+        // exact regime: full-dimensional inside the box |x|_inf <= 1e6 (with power-of-two scaled rows a
+        // region can exist only at astronomically large coordinates; such regions are not judged)
+        None => lp::full_dim_boxed(rows, n),
         Some(d) => {
             // float regime: only regions with a ball inside the box |x| <= 1e6 are compared (almost
             // parallel rounded hyperplanes can enclose regions that exist only at ~1e16)
@@ -302,7 +318,7 @@ fn aff_close(a: &AffQ, b: &AffQ, tol: f64) -> bool {
 pub fn equiv(x: &Ref, r: &Ref, n: usize, mode: &EquivMode) -> Result<EquivStats, Mismatch> {
     let mut st = EquivStats::default();
     let mut rows = Vec::new();
-    walk_x(x, r, n, mode, &mut rows, &mut st)?;
+    walk_x(x, r, n, mode, &mut rows, None, &mut st)?;
     Ok(st)
 }
 
@@ -312,20 +328,21 @@ fn walk_x(
     n: usize,
     mode: &EquivMode,
     rows: &mut Vec<Row>,
+    wit: Option<&QVec>,
     st: &mut EquivStats,
 ) -> Result<(), Mismatch> {
     match x {
         Ref::Leaf { val, tag } => {
             st.cells_lhs += 1;
             st.fulldim_lhs += 1;
-            refine(r, n, mode, rows, val.as_ref(), *tag, st)
+            refine(r, n, mode, rows, wit, val.as_ref(), *tag, st)
         }
         Ref::Split(parts) => {
             for (g, sub) in parts {
                 let l = rows.len();
                 rows.extend(g.iter().cloned());
-                if region_ok(rows, n, mode).is_some() {
-                    walk_x(sub, r, n, mode, rows, st)?;
+                if let Some(w) = region_ok_w(rows, l, n, mode, wit) {
+                    walk_x(sub, r, n, mode, rows, Some(&w), st)?;
                 } else {
                     st.cells_lhs += sub.count_leaves();
                 }
@@ -341,6 +358,7 @@ fn refine(
     n: usize,
     mode: &EquivMode,
     rows: &mut Vec<Row>,
+    wit: Option<&QVec>,
     val: Option<&AffQ>,
     tag: usize,
     st: &mut EquivStats,
@@ -359,7 +377,7 @@ fn refine(
             if ok {
                 return Ok(());
             }
-            let p = lp::interior_point(rows, n).expect("region was full-dimensional");
+            let p = lp::full_dim_boxed(rows, n).map(|x| lp::snap_interior(rows, &x)).expect("region was full-dimensional");
             // make sure the two sides really differ at an interior point (affine maps that differ
             // as maps differ on an open dense subset; pick a point where they do)
             let p = pick_differing_point(rows, n, &p, val, v2.as_ref());
@@ -388,8 +406,8 @@ fn refine(
             for (g, sub) in parts {
                 let l = rows.len();
                 rows.extend(g.iter().cloned());
-                if region_ok(rows, n, mode).is_some() {
-                    refine(sub, n, mode, rows, val, tag, st)?;
+                if let Some(w) = region_ok_w(rows, l, n, mode, wit) {
+                    refine(sub, n, mode, rows, Some(&w), val, tag, st)?;
                 }
                 rows.truncate(l);
             }
@@ -735,7 +753,12 @@ pub fn compare_tree_opts<const K: usize>(
             (None, None) => true,
             (Some(g), Some(e)) => {
                 if mode.tol == 0.0 {
-                    g.len() == e.len() && g.iter().zip(e).all(|(a, b)| a.is_finite() && &Q::from_f64(*a) == b)
+                    // exact, or (when the reference value is not representable / the evaluation of
+                    // A x + b itself has to round because magnitudes are mixed) within 1e-12 relative
+                    g.len() == e.len()
+                        && g.iter().zip(e).all(|(a, b)| {
+                            a.is_finite() && (&Q::from_f64(*a) == b || (a - b.to_f64()).abs() <= 1e-12 * (1.0 + b.to_f64().abs()))
+                        })
                 } else {
                     g.len() == e.len() && g.iter().zip(e).all(|(a, b)| (a - b.to_f64()).abs() <= mode.tol * (1.0 + b.to_f64().abs()))
                 }
